@@ -17,6 +17,7 @@ import (
 	"time"
 
 	"github.com/pingcap/kvproto/pkg/metapb"
+	"github.com/tikv/pd/server/config"
 	"github.com/tikv/pd/server/core"
 	"github.com/tikv/pd/server/kv"
 	"github.com/tikv/pd/server/schedule"
@@ -143,6 +144,7 @@ func runLifecycles(R *res.Result, seed uint64, rounds int) {
 		}
 	}
 	runSchedulerLifecycles(R, w, master, 4)
+	runConfigReelections(R, w, master, 2)
 }
 
 type schedRec struct {
@@ -264,4 +266,159 @@ func runSchedulerLifecycles(R *res.Result, w *life10.World, master *rng.R, round
 		_ = w.RC.RemoveScheduler(names[rec.Again])
 		time.Sleep(30 * time.Millisecond)
 	}
+}
+
+// ---- round 7: the configuration a member serves after it is elected ----
+// Another member led meanwhile, acknowledged a reject-leader label property and persisted it (written here through a second
+// PersistOptions over the SAME storage, the way a leader's Persist does); then the leadership is reset for real
+// (Member.ResetLeader: this member steps down, campaigns again, campaignLeader runs).  ORACLE: a leader serves the label
+// properties that are in storage; the leader schedulers and the scatterer on the RaftCluster must not hand a leader to a store
+// whose labels carry a reject-leader property AS ACKNOWLEDGED by the other leader.
+type cfgRec struct {
+	RejectZones []string
+}
+
+func runConfigReelections(R *res.Result, w *life10.World, master *rng.R, rounds int) {
+	const n = 5
+	ctx, cancel := context.WithCancel(context.Background())
+	defer cancel()
+	bc := w.S.GetBasicCluster()
+	for k := 0; k < rounds; k++ {
+		r := master.Fork(uint64(2000 + k))
+		w.Reset(n)
+		rec := cfgRec{RejectZones: []string{fmt.Sprintf("z%d", 1+r.Intn(n))}}
+		if r.Pct(40) {
+			rec.RejectZones = append(rec.RejectZones, fmt.Sprintf("z%d", 1+r.Intn(n)))
+		}
+		// with no region in the cache the coordinator of the restarted cluster starts at once, registers the default schedulers and
+		// persists the options it holds: let that start-up write pass before another leader's write is simulated
+		for dl := time.Now().Add(3 * time.Second); len(w.RC.GetSchedulers()) == 0 && time.Now().Before(dl); {
+			time.Sleep(20 * time.Millisecond)
+		}
+		time.Sleep(250 * time.Millisecond)
+		// what the other leader did: load the configuration, set the property, persist
+		other := config.NewPersistOptions(w.S.GetConfig())
+		if err := other.Reload(w.S.GetStorage()); err != nil {
+			R.Notes = append(R.Notes, "configuration re-election history skipped: "+err.Error())
+			return
+		}
+		cur := other.GetLabelPropertyConfig()
+		for _, ps := range cur[opt.RejectLeader] {
+			other.DeleteLabelProperty(opt.RejectLeader, ps.Key, ps.Value)
+		}
+		for _, z := range rec.RejectZones {
+			other.SetLabelProperty(opt.RejectLeader, "zone", z)
+		}
+		if err := other.Persist(w.S.GetStorage()); err != nil {
+			R.Notes = append(R.Notes, "configuration re-election history skipped: "+err.Error())
+			return
+		}
+		// this member is elected (again)
+		w.S.GetMember().ResetLeader()
+		time.Sleep(200 * time.Millisecond)
+		dl := time.Now().Add(20 * time.Second)
+		for !(w.S.GetMember().IsLeader() && w.S.GetRaftCluster() != nil && w.S.GetRaftCluster().IsRunning()) {
+			if time.Now().After(dl) {
+				R.Notes = append(R.Notes, "configuration re-election history skipped: the member did not lead again within 20 s")
+				return
+			}
+			time.Sleep(20 * time.Millisecond)
+		}
+		R.Count("lifecycle:config-reelection-history")
+		replay := map[string]interface{}{"config-reelection": rec}
+		hist := fmt.Sprintf("another leader persisted reject-leader zone in %v, then this member was elected", rec.RejectZones)
+		// the oracle is what the other leader ACKNOWLEDGED (its Persist returned nil), not what storage holds afterwards: a leader
+		// that works with a stale configuration writes it back over the acknowledged one with its next Persist
+		fresh := other
+		now := config.NewPersistOptions(w.S.GetConfig())
+		if err := now.Reload(w.S.GetStorage()); err != nil {
+			panic(err)
+		}
+		stored, served := fmt.Sprint(fresh.GetLabelPropertyConfig()), fmt.Sprint(w.S.GetPersistOptions().GetLabelPropertyConfig())
+		if inStorage := fmt.Sprint(now.GetLabelPropertyConfig()); inStorage != stored {
+			R.Violate("C11:acknowledged-label-properties-lost-from-storage",
+				fmt.Sprintf("%s; acknowledged label properties %s, storage holds %s after the election", hist, stored, inStorage), replay)
+		}
+		if stored != served {
+			R.Violate("C11:elected-leader-serves-stale-label-properties",
+				fmt.Sprintf("%s; acknowledged label properties %s, the leader serves %s", hist, stored, served), replay)
+		}
+		rejecting := map[uint64]bool{}
+		for id := uint64(1); id <= n; id++ {
+			if fresh.CheckLabelProperty(opt.RejectLeader, []*metapb.StoreLabel{{Key: "zone", Value: fmt.Sprintf("z%d", id)}}) {
+				rejecting[id] = true
+			}
+		}
+		// regions led from stores that accept leaders, with followers everywhere else; the rejecting stores hold no leader, so
+		// every leader scheduler is drawn to them
+		var lead []uint64
+		for id := uint64(1); id <= n; id++ {
+			if !rejecting[id] {
+				lead = append(lead, id)
+			}
+		}
+		pid := uint64(9500)
+		var regions []*core.RegionInfo
+		for q := 0; q < 12; q++ {
+			meta := &metapb.Region{Id: uint64(7300 + q), StartKey: []byte(fmt.Sprintf("c%02d", q)), EndKey: []byte(fmt.Sprintf("c%02d", q+1)),
+				RegionEpoch: &metapb.RegionEpoch{ConfVer: 5, Version: 5}}
+			l := lead[q%len(lead)]
+			on := []uint64{l}
+			for id := uint64(1); id <= n && len(on) < 3; id++ {
+				if rejecting[id] && id != l {
+					on = append(on, id)
+				}
+			}
+			for id := uint64(1); id <= n && len(on) < 3; id++ {
+				dup := false
+				for _, x := range on {
+					dup = dup || x == id
+				}
+				if !dup {
+					on = append(on, id)
+				}
+			}
+			for _, st := range on {
+				pid++
+				meta.Peers = append(meta.Peers, &metapb.Peer{Id: pid, StoreId: st})
+			}
+			rg := core.NewRegionInfo(meta, meta.Peers[0], core.SetApproximateSize(10), core.SetApproximateKeys(100))
+			bc.PutRegion(rg)
+			regions = append(regions, rg)
+		}
+		for id := uint64(1); id <= n; id++ {
+			_ = w.Heartbeat(id, 10)
+		}
+		rc := w.S.GetRaftCluster()
+		judge := func(name string, region *core.RegionInfo, op *operator.Operator) {
+			if op == nil || region == nil {
+				return
+			}
+			R.Count("lifecycle:config:" + name + ":operator")
+			tr := sim10.Run(region, op)
+			if to := tr.Final().Leader; to != region.GetLeader().GetStoreId() && rejecting[to] {
+				R.Violate("C11:"+name+":leader-to-store-rejecting-leaders-as-acknowledged",
+					fmt.Sprintf("%s hands the leader to store %d (zone z%d): %s", sim10.Summary(op), to, to, hist), replay)
+			}
+		}
+		sc := schedule.NewRegionScatterer(ctx, rc)
+		for _, rg := range regions[:6] {
+			if op, err := sc.Scatter(rg, "g1"); err == nil {
+				judge("scatter", rg, op)
+			}
+		}
+		storage := core.NewStorage(kv.NewMemoryKV())
+		for _, typ := range []string{schedulers.BalanceLeaderType, schedulers.ShuffleLeaderType} {
+			sch, err := schedule.CreateScheduler(typ, rc.GetOperatorController(), storage, schedule.ConfigSliceDecoder(typ, []string{"", ""}))
+			if err != nil {
+				continue
+			}
+			for t := 0; t < 8; t++ {
+				for _, op := range sch.Schedule(rc) {
+					judge(typ, rc.GetRegion(op.RegionID()), op)
+				}
+			}
+		}
+	}
+	// leave no property behind for the phases of a later run on this server
 }
